@@ -1,6 +1,7 @@
 import AriVerif.Spec.Ari
 import AriVerif.Meta
 import AriVerif.Lemmas.Wire
+import AriVerif.Gen.Layouts
 /-!
 # C06 — request decoding inverts the ARI encoding for all 18 request kinds
 
@@ -81,5 +82,28 @@ example : decodeRequest "NNT" ["S", "#", "S", "S8f3da29cfc463220T5454537", "I", 
     some (.ok ⟨[.str none, .str (some "S8f3da29cfc463220T5454537")],
       .tables [[.int 1, .mode (some .merge), .str (some "nasdaq100_AA_AL"), .str (some "short"),
                 .int 1, .int 5, .str none]]⟩) := by decide +kernel
+
+/-! ## the layouts are the ones the source code reads (regenerated from the source on every run) -/
+
+/-- the typed reads a layout prescribes: field `i` of type `ty` at token offset `2 * i`, then the variable part. -/
+def layoutOf (σ : Schema) : List (Char × Nat) × Option (String × Nat) :=
+  ((List.range σ.fixed.length).zip σ.fixed |>.map fun (i, ty) => (ty.marker, 2 * i),
+   match σ.tail with
+   | .none => none
+   | .map => some ("map", 2 * σ.fixed.length)
+   | .seq => some ("seq", 2 * σ.fixed.length)
+   | .tables => some ("tables", 2 * σ.fixed.length))
+
+/-- **C06 / C09 (layouts tied to the source by translation).** `Gen.layouts` is extracted on every run from the
+    AST of the 18 `read_*` functions (every `read(data, T, k)` / `read_map` / `read_seq` / `_read_tables` call in
+    evaluation order, helper functions inlined, offsets constant-folded).  It equals the hand-written layout
+    table the decoding theorems are about — so a changed offset, type marker, field order or tail in the source
+    breaks this theorem instead of silently leaving the model behind. -/
+theorem c06_layouts_from_source :
+    Gen.layouts = schemas.map (fun σ => (σ.method, layoutOf σ)) := by decide +kernel
+
+theorem c06_table_layout_from_source :
+    Gen.tableLayout = ((List.range tableTys.length).zip tableTys |>.map fun (i, ty) => (ty.marker, 2 * i)) ∧
+    Gen.tableChunk = 2 * tableTys.length := by decide +kernel
 
 end Ari
